@@ -79,6 +79,30 @@ Proof.
 Qed.
 Print Assumptions C10_station_perm_outputs.
 
+(* the same when the two runs use two schedulers (e.g. an algorithm that closes over the original /
+   the permuted infrastructure) whose answers are the same dictionary *)
+Theorem C10_station_perm_two_schedulers : forall sched sched' sts sts' cf st,
+  equivariant2 sched sched' -> NoDup (map fst sts) -> Permutation sts sts' ->
+  simulate sched sts cf = Some st ->
+  exists st', simulate sched' sts' cf = Some st'
+    /\ (forall s, zassoc s (ss_slots st') = zassoc s (ss_slots st))
+    /\ Permutation (ss_slots st) (ss_slots st')
+    /\ ss_warn st' = ss_warn st /\ ss_last st' = ss_last st.
+Proof. exact thm_station_perm2. Qed.
+Print Assumptions C10_station_perm_two_schedulers.
+
+(* sorting-based schedulers: FULL statement wanted — "SortedSchedulingAlgo (FCFS, EDF, LLF, LRPT, finite or
+   continuous rates) with distinct sort keys is equivariant2 under station / constraint permutation".
+   Proved part: with distinct keys the sorted order, hence the input of the allocation procedure, does
+   not depend on the order in which the active sessions are presented (whatever the allocation does).
+   Missing: the allocation procedure itself (bisection / discrete search against the constraints) is
+   not modelled, so its independence of station and constraint order is only OBSERVED on the paired
+   real runs (harness/c10.py monitor). *)
+Theorem C10_sorted_equivariant_partial : forall key alloc t v v',
+  NoDup (map key v) -> Permutation v v' -> sched_sorted key alloc t v = sched_sorted key alloc t v'.
+Proof. exact sorted_equivariant. Qed.
+Print Assumptions C10_sorted_equivariant_partial.
+
 (* the two scheduler families of the model are equivariant *)
 Theorem C10_uncontrolled_equivariant : equivariant sched_uncontrolled.
 Proof. exact uncontrolled_equivariant. Qed.
